@@ -1070,6 +1070,28 @@ def _find_self(
     return kwargs["self"]
 
 
+def _is_outermost_new(wrapper: Callable[..., Any], cls: Any) -> bool:
+    """Check that no invariant-checking wrapper of a ``__new__`` precedes ``wrapper`` when ``cls`` is instantiated."""
+    if not isinstance(cls, type):
+        return True
+
+    for klass in cls.__mro__:
+        candidate = vars(klass).get("__new__", None)
+        if candidate is None:
+            continue
+
+        if isinstance(candidate, staticmethod):
+            candidate = candidate.__func__
+
+        if candidate is wrapper:
+            return True
+
+        if getattr(candidate, "__is_invariant_check__", False):
+            return False
+
+    return True
+
+
 def _decorate_new_with_invariants(new_func: CallableT) -> CallableT:
     """
     Decorate the ``__new__`` of a class s.t. the invariants are checked on the result.
@@ -1124,7 +1146,12 @@ def _decorate_new_with_invariants(new_func: CallableT) -> CallableT:
         #
         # ``__new__`` may also return an instance of an unrelated class (*e.g.*, a factory); there are no invariants
         # to be checked on such an instance.
-        if instance.__class__.__init__ is object.__init__:
+        #
+        # If this wrapper has been called from the (wrapped) ``__new__`` of a sub-class, the instance is not constructed
+        # yet either: the outermost wrapper of the ``__new__``'s checks the invariants once they all returned.
+        if instance.__class__.__init__ is object.__init__ and _is_outermost_new(
+            wrapper=wrapper, cls=args[0] if len(args) > 0 else None
+        ):
             for invariant in getattr(instance.__class__, "__invariants__", []):
                 _assert_invariant(contract=invariant, instance=instance)
 
